@@ -211,6 +211,11 @@ pub trait Scenario: 'static {
     fn extra(_tier: Tier, _seed: u64, _obs: &mut Obs) -> Vec<(Value, Failure)> {
         Vec::new()
     }
+    /// Upper bound on the runs one worker process executes before it is
+    /// replaced by a fresh one (process-global state cannot outlive it).
+    fn runs_per_process(_tier: Tier) -> u64 {
+        u64::MAX
+    }
 }
 
 pub struct DynScenario {
@@ -223,6 +228,7 @@ pub struct DynScenario {
     pub shrink_json: fn(&Value) -> Vec<Value>,
     pub meta: fn() -> Meta,
     pub extra: fn(Tier, u64, &mut Obs) -> Vec<(Value, Failure)>,
+    pub runs_per_process: fn(Tier) -> u64,
 }
 
 fn exec_json<S: Scenario>(v: &Value, obs: &mut Obs) -> Result<Result<(), Failure>, String> {
@@ -253,6 +259,7 @@ pub fn dyn_of<S: Scenario>() -> DynScenario {
         shrink_json: shrink_json::<S>,
         meta: S::meta,
         extra: S::extra,
+        runs_per_process: S::runs_per_process,
     }
 }
 
